@@ -457,6 +457,13 @@ func init() {
 		Batches:     func(t string) int { return map[string]int{"quick": 4, "thorough": 16}[t] },
 		Parallel:    func(t string) int { return 4 },
 		Timeout:     func(t string) time.Duration { return 25 * time.Minute },
+		RaceUpgrade: func(report string) (string, bool) {
+			// a data race on the key list makes the outcome of a concurrent lookup undefined
+			if strings.Contains(report, "service.(*cipherList)") {
+				return "C09/key-list-accessed-without-synchronisation", true
+			}
+			return "", false
+		},
 		Run: func(c *vk.Ctx) {
 			for _, s := range []string{"configurations", "positive_pairs", "negative_pairs", "configurations_with_legacy_keys"} {
 				c.Require(s)
